@@ -101,7 +101,7 @@ func genPayment(rng *rand.Rand, i int) []byte {
 		lines = append(lines, l)
 	}
 	p := map[string]any{
-		"$schema": "https://gobl.org/draft-0/bill/payment", "$regime": "ES", "type": []string{"receipt", "request", "advice"}[rng.IntN(3)], "code": fmt.Sprintf("P-%d", i), "issue_date": "2025-01-28", "currency": pc,
+		"$schema": "https://gobl.org/draft-0/bill/payment", "uuid": "0190a1b2-c3d4-7e5f-8a9b-0c1d2e3f4a5b", "$regime": "ES", "type": []string{"receipt", "request", "advice"}[rng.IntN(3)], "code": fmt.Sprintf("P-%d", i), "issue_date": "2025-01-28", "currency": pc,
 		"supplier": map[string]any{"name": "Supplier", "tax_id": map[string]any{"country": "ES", "code": "B98602642"}},
 		"customer": map[string]any{"name": "Customer"},
 		"lines":    lines,
